@@ -1,14 +1,15 @@
 SPECIFICATION Spec
 CONSTANTS
   Names = {"alice"}
-  Pws = {"Secret1", "secret1", "LONG"}
+  Pws = {"Secret1", "secret1", "LONG", "P72"}
   LongPws = {"LONG"}
+  Pw72 = {"P72"}
   ExtraCands = {"", "SECRET1", "Secret1 ", "wrong"}
   PermSets = {{}, {"ego.logon"}, {"ego.root"}, {"other"}, {"ego.logon", "other"}}
   InitFmts = {"bcrypt", "sha", "plain"}
   InitCosts = {4, 12}
   Spellings = {"exact", "upper", "mixed", "padded", "ghost", "empty"}
-  CandKinds = {"lit", "stored", "cyc", "braced", "hashof"}
+  CandKinds = {"lit", "stored", "cyc", "braced", "hashof", "ext"}
   MaxVer = 2
   Impl = "code"
 INVARIANTS TypeOK
